@@ -81,6 +81,7 @@ Fadt_Call(s, c) ==
     [] c.op = "gpe_info" -> [s EXCEPT !.gpe0_blk = c.a.gpe0_blk, !.gpe1_blk = c.a.gpe1_blk, !.gpe0_len = c.a.gpe0_len,
                                       !.gpe1_len = c.a.gpe1_len, !.gpe1_base = c.a.gpe1_base]
     [] c.op = "preferred_pm_profile" -> [s EXCEPT !.pm_profile = <<PmProfileCode[c.a.v]>>]
+    [] OTHER -> s                                          \* a refused operation leaves the state as it was
 Fadt_Lay(c, s) == Hdr("FADT", c) \o
   <<N("firmware_ctrl", s.firmware_ctrl), N("dsdt", s.dsdt), K(Z(1)), N("pm_profile", s.pm_profile), K(Z(2)), K(Z(4)),
     N("acpi_enable", s.acpi_enable), N("acpi_disable", s.acpi_disable), K(Z(2)),
@@ -104,6 +105,7 @@ TcpaS_Call(s, c) ==
     [] c.op = "pci_sbdf" -> [s EXCEPT !.seg = c.a.seg, !.bus = c.a.bus, !.dev = c.a.dev, !.fn = c.a.fn, !.dev_flags = @ \cup {0}]
     [] c.op = "base_addr" -> [s EXCEPT !.base = GasBytes(c.a.v)]
     [] c.op = "config_addr" -> [s EXCEPT !.cfg = GasBytes(c.a.v), !.dev_flags = @ \cup {2}]
+    [] OTHER -> s                                          \* a refused operation leaves the state as it was
 TcpaS_Lay(c, s) == Hdr("TCPA_SERVER", c) \o
   <<N("class", <<1, 0>>), K(Z(2)), N("laml", s.laml), N("lasa", s.lasa), N("tcg_rev", c.tcg_rev),
     N("dev_flags", BitsLE(s.dev_flags, 1)), N("int_flags", BitsLE(s.int_flags, 1)), N("gpe", s.gpe), K(Z(3)),
